@@ -274,6 +274,9 @@ def between_comparer(comparer_params_eval, student_eval, utils):
     if not np.isreal(student_eval):
         raise InputTypeError("Input must be real.")
 
+    # A complex-typed value with zero imaginary part (e.g. "2+0*i") is real, but cannot be ordered
+    student_eval = np.real(student_eval)
+
     return start <= student_eval <= stop
 
 def congruence_comparer(comparer_params_eval, student_eval, utils):
